@@ -234,6 +234,15 @@ pub fn disasm_event(v: &Vocab, m: &dr::Module, tag: &str) -> Value {
             let lines: Vec<&str> = text.split('\n').collect();
             let nh = if m.header.is_some() { 4 } else { 0 };
             let mut ctx = ReadCtx::default();
+            // the vocabulary includes the module's scalar type declarations wherever they stand: first pass
+            for l in lines.iter().skip(nh) {
+                let t = tokenize(l);
+                if t.len() >= 4 && t[1] == "=" && (t[2] == "OpTypeInt" || t[2] == "OpTypeFloat") {
+                    if let (Some(id), Ok(w)) = (id_tok(&t[0]), t[3].parse::<u32>()) {
+                        if t[2] == "OpTypeInt" { ctx.types.insert(id, (true, w, t.get(4).map(|s| s == "1").unwrap_or(false))); } else { ctx.types.insert(id, (false, w, false)); }
+                    }
+                }
+            }
             // "reading the text back with the same vocabulary": ext inst imports are part of it
             let mut reread = vec![];
             let mut ok = true;
@@ -306,7 +315,7 @@ pub fn drive(args: &[String]) {
     }
     if !batch.is_empty() { let insts = skeleton(std::mem::take(&mut batch), &mut rng); if let Some(m) = load_insts(&insts) { out.ev(disasm_event(&v, &m, "sweep")); } }
     // (c) OpConstant / OpSpecConstant / OpSwitch over every int / float width with boundary bit patterns; undeclared and non-numeric types
-    let pats32 = [0u32, 1, 0x7fff_ffff, 0x8000_0000, 0xffff_ffff, 0x3f80_0000, 0xbf80_0000, 0x0000_3c00, 0x7f80_0000, 0xff80_0000, 0x0000_0001, 0x8000_0000, 42];
+    let pats32 = [0xffu32, 0x80, 0xffff, 0x8000, 0x0001_0005, 0xffff_ff80, 0u32, 1, 0x7fff_ffff, 0x8000_0000, 0xffff_ffff, 0x3f80_0000, 0xbf80_0000, 0x0000_3c00, 0x7f80_0000, 0xff80_0000, 0x0000_0001, 0x8000_0000, 42];
     let pats64 = [0u64, 1, 0x7fff_ffff_ffff_ffff, 0x8000_0000_0000_0000, u64::MAX, 0x3ff0_0000_0000_0000, 0xbff0_0000_0000_0000, 0x7ff0_0000_0000_0000, 0xfff0_0000_0000_0000, 1 << 52, 0x4059_0000_0000_0000];
     let mut insts: Vec<SInst> = vec![];
     let mut id = 1u32;
@@ -322,6 +331,17 @@ pub fn drive(args: &[String]) {
     insts.push(SInst { op: 43, rt: Some(id), rid: Some(id + 1), ops: vec![SOp::one("LiteralBit32", 7)] });
     insts.push(SInst { op: 43, rt: Some(9999), rid: Some(id + 2), ops: vec![SOp::one("LiteralBit32", 0xffff_fff0)] });
     if let Some(m) = load_insts(&insts) { out.ev(disasm_event(&v, &m, "constants")); }
+    // constants that come BEFORE the declaration of their type (legal for the loader and the Builder)
+    let early = vec![
+        SInst { op: 43, rt: Some(5), rid: Some(1), ops: vec![SOp::one("LiteralBit32", 0xffff_fffb)] },
+        SInst { op: 43, rt: Some(6), rid: Some(2), ops: vec![SOp::one("LiteralBit32", 0xc000_0000)] },
+        SInst { op: 43, rt: Some(7), rid: Some(3), ops: vec![SOp::one("LiteralBit32", 0xffff_fffb)] },
+        SInst { op: 21, rt: None, rid: Some(5), ops: vec![SOp::one("LiteralBit32", 32), SOp::one("LiteralBit32", 1)] },
+        SInst { op: 22, rt: None, rid: Some(6), ops: vec![SOp::one("LiteralBit32", 32)] },
+        SInst { op: 21, rt: None, rid: Some(7), ops: vec![SOp::one("LiteralBit32", 32), SOp::one("LiteralBit32", 0)] },
+        SInst { op: 43, rt: Some(5), rid: Some(4), ops: vec![SOp::one("LiteralBit32", 0x8000_0000)] },
+    ];
+    if let Some(m) = load_insts(&early) { out.ev(disasm_event(&v, &m, "constants")); }
     // (d) OpExtInst with known / unknown sets and numbers; strings with quotes, backslashes, newlines, non-ASCII
     let mut insts = vec![
         SInst { op: 11, rt: None, rid: Some(1), ops: vec![SOp { k: "LiteralString".into(), w: vec![], s: Some(b"GLSL.std.450".to_vec()) }] },
@@ -333,6 +353,12 @@ pub fn drive(args: &[String]) {
     for (set, nums) in [(1u32, (0u32..=83).chain([5000]).collect::<Vec<u32>>()), (2, (0..=206).chain([300, 70000]).collect()), (3, vec![1, 2]), (77, vec![1])] {
         for nn in nums {
             body.push(SInst { op: 12, rt: Some(50), rid: Some(200 + body.len() as u32), ops: vec![SOp::one("IdRef", set), SOp::one("LiteralExtInstInteger", nn), SOp::one("IdRef", 60), SOp::one("IdRef", 61)] });
+        }
+    }
+    // the same number from the two known sets back to back, in both orders
+    for nn in 0..90u32 {
+        for set in [1u32, 2, 2, 1] {
+            body.push(SInst { op: 12, rt: Some(50), rid: Some(2000 + body.len() as u32), ops: vec![SOp::one("IdRef", set), SOp::one("LiteralExtInstInteger", nn), SOp::one("IdRef", 60)] });
         }
     }
     insts.extend(skeleton(body, &mut rng));
